@@ -9,6 +9,7 @@ use crate::refimpl::rlp::{self, Item};
 use crate::refimpl::sig::{RefKey, Scheme};
 use crate::report::Ctx;
 use crate::util::{below, rng_for};
+use rand::RngCore;
 use serde_json::json;
 
 pub use crate::props_hist::*;
@@ -39,6 +40,24 @@ pub fn run(ctx: &mut Ctx) {
     }
 }
 
+/// key pools per scheme, built on first use (so that the Miri runs never touch secp256k1 / ed25519)
+pub struct Pools {
+    cells: [std::cell::OnceCell<Vec<RefKey>>; 3],
+}
+impl Pools {
+    pub fn new() -> Self {
+        Self { cells: [std::cell::OnceCell::new(), std::cell::OnceCell::new(), std::cell::OnceCell::new()] }
+    }
+    pub fn get(&self, s: Scheme) -> &Vec<RefKey> {
+        let i = match s {
+            Scheme::Secp => 0,
+            Scheme::Ed => 1,
+            Scheme::Toy => 2,
+        };
+        self.cells[i].get_or_init(|| gen::key_pool(s, 7))
+    }
+}
+
 #[derive(Clone, Copy, PartialEq, Eq)]
 pub enum ByteLevel {
     Off,
@@ -62,19 +81,71 @@ pub struct DecPlan {
 }
 
 pub fn scheme_for_base(b: u64) -> Scheme {
+    if cfg!(miri) {
+        return Scheme::Toy;
+    }
     [Scheme::Secp, Scheme::Ed, Scheme::Secp, Scheme::Toy, Scheme::Secp, Scheme::Ed][(b % 6) as usize]
+}
+
+/// W-DEC under the Miri interpreter (~10^4 x slower): one Toy base record per process, then a seeded
+/// stream of cheap-to-generate hostile inputs (byte-level alterations, unstructured bytes) until the
+/// phase deadline. The structural / re-signed classes are left to the native layers.
+fn wdec_miri(ctx: &mut Ctx, plan: DecPlan) {
+    let pool = gen::key_pool(Scheme::Toy, 7);
+    let mut r0 = rng_for(ctx.seed, &["wdec-miri-base"], ctx.shard);
+    let rec = gen::random_valid(&mut r0, &pool);
+    let base = rec.bytes();
+    ctx.count("bases");
+    ctx.sample(|| json!({"class": "valid", "scheme": "toy", "hex": crate::util::hex(&base)}));
+    judge_input(ctx, "valid", &base, JudgeOpts { text: plan.text });
+    let mut i = 0u64;
+    while !ctx.expired() {
+        i += 1;
+        let mut r = rng_for(ctx.seed, &["wdec-miri"], i * ctx.nshards + ctx.shard);
+        let pos = below(&mut r, base.len() as u64) as usize;
+        let (cls, m): (&str, Vec<u8>) = match below(&mut r, 7) {
+            0 => {
+                let mut v = base.clone();
+                v[pos] ^= 1 << below(&mut r, 8);
+                ("bit-flip", v)
+            }
+            1 => ("truncation", base[..pos].to_vec()),
+            2 => {
+                let mut v = base.clone();
+                v.remove(pos);
+                ("byte-deletion", v)
+            }
+            3 => {
+                let mut v = base.clone();
+                v.insert(pos, [0x00, 0x80, 0xff, 0xb8, 0xf8, 0xc1][below(&mut r, 6) as usize]);
+                ("byte-insertion", v)
+            }
+            4 => {
+                let mut v = base.clone();
+                v[pos] = [0x00, 0xff, 0x80, 0xb7, 0xbf, 0xf7, 0xc0][below(&mut r, 7) as usize];
+                ("byte-edit", v)
+            }
+            5 => {
+                // header bytes of the outer list and of the signature item are where the unchecked
+                // arithmetic of the RLP library sits
+                let mut v = base.clone();
+                let p = below(&mut r, 4.min(base.len() as u64)) as usize;
+                v[p] = r.next_u32() as u8;
+                ("header-edit", v)
+            }
+            _ => ("unstructured", gen::random_unstructured(&mut r)),
+        };
+        judge_input(ctx, cls, &m, JudgeOpts { text: plan.text && i % 5 == 0 });
+    }
 }
 
 /// W-DEC
 pub fn wdec(ctx: &mut Ctx, plan: DecPlan) {
-    let pools = [gen::key_pool(Scheme::Secp, 7), gen::key_pool(Scheme::Ed, 7), gen::key_pool(Scheme::Toy, 7)];
-    let pool = |s: Scheme| -> &Vec<RefKey> {
-        match s {
-            Scheme::Secp => &pools[0],
-            Scheme::Ed => &pools[1],
-            Scheme::Toy => &pools[2],
-        }
-    };
+    if cfg!(miri) {
+        return wdec_miri(ctx, plan);
+    }
+    let pools = Pools::new();
+    let pool = |s: Scheme| -> &Vec<RefKey> { pools.get(s) };
     let total = plan.fixed_bases + ctx.vol(plan.seeded_bases);
     let t = JudgeOpts { text: plan.text };
     let nt = JudgeOpts { text: false };
@@ -93,15 +164,21 @@ pub fn wdec(ctx: &mut Ctx, plan: DecPlan) {
         ctx.count("bases");
         ctx.sample(|| json!({"class": "valid", "scheme": scheme.name(), "hex": crate::util::hex(&bytes)}));
         judge_input(ctx, "valid", &bytes, t);
+        if cfg!(miri) && ctx.expired() {
+            break;
+        }
         if plan.structural {
             for (cls, m) in gen::structural_mutants(&rec, &mut r) {
                 judge_input(ctx, cls, &m, nt);
             }
         }
-        if plan.size_sweep_every > 0 && b % plan.size_sweep_every == 0 {
+        if plan.size_sweep_every > 0 && b % plan.size_sweep_every == 0 && !cfg!(miri) {
             for (cls, m) in gen::size_sweep(&rec) {
                 judge_input(ctx, cls, &m, nt);
             }
+        }
+        if cfg!(miri) && ctx.expired() {
+            break;
         }
         if plan.tampers {
             let other_key = pool(scheme)[(below(&mut r, pool(scheme).len() as u64)) as usize];
@@ -116,6 +193,7 @@ pub fn wdec(ctx: &mut Ctx, plan: DecPlan) {
         }
         match plan.byte_level {
             ByteLevel::Off => {}
+            _ if cfg!(miri) && ctx.expired() => {}
             bl => {
                 for m in gen::bit_flips(&bytes) {
                     judge_input(ctx, "bit-flip", &m, nt);
@@ -143,10 +221,10 @@ pub fn wdec(ctx: &mut Ctx, plan: DecPlan) {
             }
         }
     }
-    if plan.both_keys {
+    if plan.both_keys && !cfg!(miri) {
         both_keys(ctx);
     }
-    if plan.tag_sweep {
+    if plan.tag_sweep && !cfg!(miri) {
         tag_sweep(ctx);
     }
     let n = ctx.vol(plan.unstructured);
